@@ -68,6 +68,10 @@ def gen_tx(rng, profile="normal", segwit=None):
                 st = [rand_bytes(rng, slen(f_items, ITEM_LENS_SMALL, ITEM_LENS_BIG)).hex() for _ in range(cnt)]
                 if not f_empty_item:
                     st = [it if it else "51" for it in st]
+                if f_items and len(st) >= 2 and rng.random() < 0.3:
+                    # a large item that is NOT the last of its stack (a tapscript before its control block; > 520 bytes is a rule of script
+                    # EXECUTION for v0 programs, not of parsing)
+                    st[rng.randrange(len(st) - 1)] = rand_bytes(rng, rng.choice([521, 600, 1000])).hex()
             wit.append(st)
         if all(len(s) == 0 for s in wit):
             wit[rng.randrange(n_in)] = [rand_bytes(rng, rng.choice([1, 72, 253]) if f_items else rng.choice([1, 72])).hex()]
